@@ -43,6 +43,7 @@ type World struct {
 	BindFailAt  int // creation index whose Bind fails
 	WarmFail    bool
 	WarmUp      bool // guns implement WarmedUp
+	WarmDur     time.Duration
 	Closable    bool
 	ShotDur     []time.Duration
 	ShotN       int
@@ -203,6 +204,9 @@ func (g closableGun) Close() error { vs.Yield("gun-close"); g.Gun.Closed++; retu
 type warmGun struct{ *Gun }
 
 func (g warmGun) WarmUp(o *warmup.Options) (any, error) {
+	if g.w.WarmDur > 0 {
+		time.Sleep(g.w.WarmDur)
+	}
 	if g.w.WarmFail {
 		return nil, fmt.Errorf("warmup: %w", g.w.Cause)
 	}
